@@ -18,7 +18,7 @@ QTargets(D) ==
                    GG(<<3, 4>>, <<R(5,4), One>>, <<R(9,4), R(-1,2)>>, Rot2Of(CS_4_5n), TRUE)}
     ELSE {GG(<<3, 2, 2>>, <<One, One, R(3,2)>>, <<One, R(1,2), RI(-1)>>, QuatMat(<<1,1,1,1>>), FALSE),
           GG(<<2, 3, 2>>, <<R(1,2), R(3,2), Two>>, <<One, Zero, RI(-1)>>, QuatMat(<<2,1,0,0>>), TRUE)}
-AllPads == {<<"zeros", 0>>, <<"border", 0>>, <<"constant", 7>>}
+AllPads == {<<"zeros", 0>>, <<"border", 0>>, <<"constant", 7>>, <<"constant", -3>>}
 \* ---------------------------------------------------------------- thorough lattice
 V53 == <<8, 21, 4, 17, 29, 12, 1, 26, 9, 15, 23, 6, 19, 2, 31>>  \* 5 x 3
 V333 == <<7, 19, 2, 25, 11, 30, 4, 16, 22, 9, 28, 1, 13, 20, 5, 27, 10, 18, 3, 24, 14, 31, 6, 21, 8, 17, 12>>
